@@ -1,10 +1,156 @@
 /-
   C02 — writer and parser agree with an independent reference codec of the DLT format.
-  (theorems under construction; see below)
+
+  Model: `Message.asBytes` (Model/Encode.lean), `dltMessage` (Model/Decode.lean).
+  Spec: Spec/Codec.lean — `Spec.layout` (the bytes of a message, by weights and digit sums)
+  and `Spec.decode` (positions by offset from HTYP and LEN, headers by offset, arguments by a
+  consumer of the declared payload slice), written from the AUTOSAR layout.
 -/
-import DltVerif.Spec.Codec
-import DltVerif.Model.Decode
+import DltVerif.Lemmas.CodecMessage
+import DltVerif.Lemmas.CodecEncode
+import DltVerif.Props.C01
 
 namespace Dlt
+open Dlt.Spec
+
+/-- the parser's result as a verdict: a message with its consumed length, "incomplete", or
+    rejection (both error classes) -/
+def verdictOf (r : Except DltError (ParsedMessage × Bytes)) (n : Nat) : Verdict :=
+  match r with
+  | .ok (.item m, rest) => .item m (n - rest.length)
+  | .ok (_, _) => .reject
+  | .error (.incomplete _) => .incomplete
+  | .error _ => .reject
+
+theorem bodyOf_storage (bs : Bytes) (d : Nat) (m : Message) (h : bodyOf bs d = some m) :
+    m.storageHeader = none := by
+  unfold bodyOf at h
+  simp only [] at h
+  cases hp : decodePayload (stdHeaderOf bs).endianness
+      (if Spec.bit (bs.headD 0#8) 0 = true then some (extAt (bs.drop (Spec.stdHeaderLen (bs.headD 0#8))))
+       else none)
+      ((bs.drop (Spec.allHeadersLen (bs.headD 0#8))).take (d - Spec.allHeadersLen (bs.headD 0#8))) with
+  | none => rw [hp] at h; cases h
+  | some p => rw [hp] at h; cases h; rfl
+
+/-- without storage header: for EVERY byte string the parser's verdict is the reference
+    decoder's verdict (message with every field and the consumed length, incomplete, reject) -/
+theorem C02_decode_nostorage (bs : Bytes) :
+    verdictOf (dltMessage bs none false) bs.length = Spec.decode false bs := by
+  have href := framing_refines bs none
+  unfold Spec.decode dltMessage
+  simp only [Bool.false_eq_true, if_false]
+  cases hf : Spec.framing bs with
+  | incomplete b =>
+    rw [hf] at href
+    obtain ⟨hint, hh, _⟩ := href
+    rw [hh]; rfl
+  | reject =>
+    rw [hf] at href
+    simp only [] at href
+    rw [href]; rfl
+  | complete d =>
+    simp only []
+    rw [decodeComplete_take bs d hf none d]
+    obtain ⟨h1, h2⟩ := msgBody_complete bs d hf
+    rw [FramingStorage.dltMessageIntern_false_eq]
+    have hdl : d ≤ bs.length := by
+      obtain ⟨_, _, _, _, _, hd, _⟩ := (FramingStorage.framing_complete_iff bs d).1 hf
+      exact hd
+    cases hb : bodyOf bs d with
+    | some m =>
+      rw [h1 m hb]
+      have hs := bodyOf_storage bs d m hb
+      have hm : ({ m with storageHeader := none } : Message) = m := by
+        cases m; simp only at hs; subst hs; rfl
+      simp only [PRes.toResult, verdictOf, List.length_drop, hm]
+      congr 1
+      omega
+    | none =>
+      rcases h2 hb with h | h <;> rw [h] <;> rfl
+
+/-- with storage header: junk before the first pattern is skipped, the storage header is
+    read, and the verdict is again the reference decoder's for EVERY byte string -/
+theorem C02_decode_storage (bs : Bytes) :
+    verdictOf (dltMessage bs none true) bs.length = Spec.decode true bs := by
+  unfold Spec.decode Spec.storageFraming dltMessage
+  simp only [if_true]
+  by_cases h16 : bs.length < 16
+  · rw [if_pos h16, dltMessageIntern_storage_short bs none h16]; rfl
+  · rw [if_neg h16]
+    cases hs : Spec.firstPattern bs with
+    | none =>
+      rw [dltMessageIntern_storage_nopattern bs none (by omega) hs]; rfl
+    | some skip =>
+      simp only []
+      by_cases hcut : bs.length - skip < 16
+      · rw [if_pos hcut]
+        obtain ⟨n, hn, _⟩ := dltMessageIntern_storage_cut bs none skip (by omega) hs hcut
+        rw [hn]; rfl
+      · rw [if_neg hcut]
+        rw [dltMessageIntern_storage_exact bs none skip (by omega) hs (by omega)]
+        have href := framing_refines (bs.drop (skip + 16)) none
+        cases hf : Spec.framing (bs.drop (skip + 16)) with
+        | incomplete b =>
+          rw [hf] at href
+          obtain ⟨hint, hh, _⟩ := href
+          rw [hh]; rfl
+        | reject =>
+          rw [hf] at href
+          simp only [] at href
+          rw [href]; rfl
+        | complete d =>
+          simp only []
+          rw [decodeComplete_take _ d hf (some (storageHeaderOf ((bs.drop skip).take 16))) (skip + 16 + d)]
+          obtain ⟨h1, h2⟩ := msgBody_complete (bs.drop (skip + 16)) d hf
+          rw [FramingStorage.dltMessageIntern_false_eq]
+          have hdl : d ≤ (bs.drop (skip + 16)).length := by
+            obtain ⟨_, _, _, _, _, hd, _⟩ :=
+              (FramingStorage.framing_complete_iff (bs.drop (skip + 16)) d).1 hf
+            exact hd
+          rw [List.length_drop] at hdl
+          cases hb : bodyOf (bs.drop (skip + 16)) d with
+          | some m =>
+            rw [h1 m hb]
+            simp only [PRes.map_ok, PRes.toResult, verdictOf, ParsedMessage.withStorage,
+              List.length_drop]
+            congr 1
+            omega
+          | none =>
+            rcases h2 hb with h | h <;> rw [h] <;> rfl
+
+/-- C02 (decoding): for every byte string and both storage-header modes, the parser's
+    verdict is the verdict of the independently written reference decoder -/
+theorem C02_decode (w : Bool) (bs : Bytes) :
+    verdictOf (dltMessage bs none w) bs.length = Spec.decode w bs := by
+  cases w
+  · exact C02_decode_nostorage bs
+  · exact C02_decode_storage bs
+
+/-- the type-info word: the crate's decoder is the decoder by weights on all 2^32 words, and
+    it accepts exactly the words naming one supported kind with a supported width -/
+theorem C02_typeinfo (w : BitVec 32) :
+    TypeInfo.ofU32 w = tiDecode w.toNat ∧ (TypeInfo.ofU32 w).isSome = tiSupported w.toNat :=
+  ⟨ofU32_eq_tiDecode w, ofU32_isSome w⟩
+
+/-- C02 (encoding): the bytes the writer produces for every well-formed message are exactly
+    the AUTOSAR layout as the reference encoder spells it out -/
+theorem C02_encode (m : Message) (h : m.wf = true) : m.asBytes = Spec.layout m := layout_eq m h
+
+/-- the reference decoder inverts the reference encoder on well-formed messages (from
+    C02_encode, C02_decode and the round trip C01): the two halves of the reference codec are
+    consistent with each other, whatever follows the message -/
+theorem C02_reference_roundtrip (m : Message) (h : m.wf = true) (sfx : Bytes) :
+    Spec.decode m.storageHeader.isSome (Spec.layout m ++ sfx) = .item m (Spec.layout m).length := by
+  rw [← C02_encode m h, ← C02_decode, (C01_roundtrip m h sfx).2]
+  simp only [verdictOf, List.length_append]
+  congr 1
+  omega
+
+/-- non-vacuity: the big-endian network-trace message of C01 is laid out as 41 bytes starting
+    with the storage pattern and HTYP 0x3F -/
+example : (Spec.layout exNetworkTrace).take 17
+    = [0x44#8, 0x4C#8, 0x54#8, 0x01#8, 1#8, 0#8, 0#8, 0#8, 2#8, 0#8, 0#8, 0#8, 0x45#8, 0x43#8, 0#8, 0#8,
+       0x3F#8] := by decide
 
 end Dlt
